@@ -1,0 +1,15 @@
+//go:build verif
+
+// Verification contracts (comments only; compiled only with -tags verif).
+// Checked by /verif/bin/govc; see /verif/DESIGN.md.
+
+package dirk
+
+//@ // C17: lock discipline.
+//@ type Service
+//@   guarded_by mutex: accounts (replaced), pubKeys (replaced)
+//@   guarded_by walletsMutex: wallets
+//@
+//@ func (*Service).fetchAccountsForWallet
+//@   // assumed of the wallet library: no nil accounts are sent
+//@   chaninv accounts (m): !isnil(m)
